@@ -208,9 +208,16 @@ func (p *parser) reduce() (err error) {
 		// keep the original ordering when building up our subslice
 		top = append([]any{s}, top...)
 
+		// the terms inside field:( ... ) are values of that field: the default field does not
+		// apply to them
+		defaultField := p.defaultField
+		if p.inFieldGroup() {
+			defaultField = ""
+		}
+
 		// try to reduce with all our reducers
 		var reduced bool
-		top, p.nonTerminals, reduced = reduce.Reduce(top, p.nonTerminals, p.defaultField)
+		top, p.nonTerminals, reduced = reduce.Reduce(top, p.nonTerminals, defaultField)
 
 		// if we consumed some non terminals during the reduce it means we successfully reduced
 		if reduced {
@@ -219,6 +226,36 @@ func (p *parser) reduce() (err error) {
 			return nil
 		}
 	}
+}
+
+// inFieldGroup reports whether the stack ends inside the parentheses of a field:( ... ) group,
+// however deeply nested.
+func (p *parser) inFieldGroup() bool {
+	open := []bool{} // for every unclosed ( on the stack: does it follow the colon of a field
+	for i, s := range p.stack {
+		tok, isTok := s.(lex.Token)
+		if !isTok {
+			continue
+		}
+		switch tok.Typ {
+		case lex.TLParen:
+			prev, isPrevTok := lex.Token{}, false
+			if i > 0 {
+				prev, isPrevTok = p.stack[i-1].(lex.Token)
+			}
+			open = append(open, isPrevTok && (prev.Typ == lex.TColon || prev.Typ == lex.TEqual))
+		case lex.TRParen:
+			if len(open) > 0 {
+				open = open[:len(open)-1]
+			}
+		}
+	}
+	for _, afterColon := range open {
+		if afterColon {
+			return true
+		}
+	}
+	return false
 }
 
 func parseLiteral(token lex.Token) (e any, err error) {
